@@ -255,7 +255,10 @@ impl Ctx {
         let last_fail: RefCell<Option<(Value, Fail)>> = RefCell::new(None);
         let result = runner.run(&strat, |v| {
             let mut rep = CaseReport::default();
+            let cur = serde_json::to_vec(&v).unwrap_or_default();
+            spin_guard_case(Some(&cur));
             let res = f(&v, &mut rep);
+            spin_guard_case(None);
             if frozen.get() {
                 // shrinking phase: do not count
                 return match res {
@@ -342,6 +345,73 @@ pub struct PropDef {
 }
 
 // ---------------------------------------------------------------------------
+// CPU-spin guard
+// ---------------------------------------------------------------------------
+
+use std::sync::atomic::{AtomicI32, AtomicU64, AtomicUsize, Ordering::SeqCst};
+static SPIN_FD: AtomicI32 = AtomicI32::new(-1);
+static CUR_CASE_PTR: AtomicUsize = AtomicUsize::new(0);
+static CUR_CASE_LEN: AtomicUsize = AtomicUsize::new(0);
+static LAST_CALLS: AtomicU64 = AtomicU64::new(0);
+static STALL: AtomicU64 = AtomicU64::new(0);
+pub const SPIN_TICKS: u64 = 8;
+
+extern "C" fn on_vtalrm(_sig: i32) {
+    use crate::interpose as ip;
+    if !ip::IN_LIB.load(SeqCst) {
+        STALL.store(0, SeqCst);
+        return;
+    }
+    let c = ip::CALLS.load(SeqCst);
+    if c != LAST_CALLS.swap(c, SeqCst) {
+        STALL.store(0, SeqCst);
+        return;
+    }
+    if STALL.fetch_add(1, SeqCst) + 1 < SPIN_TICKS {
+        return;
+    }
+    // SPIN_TICKS seconds of CPU inside the code under test without one system
+    // call: write the current case and stop this worker (async-signal-safe)
+    let fd = SPIN_FD.load(SeqCst);
+    let p = CUR_CASE_PTR.load(SeqCst);
+    let n = CUR_CASE_LEN.load(SeqCst);
+    unsafe {
+        if fd >= 0 && p != 0 {
+            ip::raw_write(fd, p as *const libc::c_void, n);
+        }
+        libc::_exit(96);
+    }
+}
+
+pub fn spin_guard_install(scratch: &Path, idx: usize) {
+    let path = std::ffi::CString::new(scratch.join(format!("w{}.spin.json", idx)).to_str().unwrap()).unwrap();
+    unsafe {
+        let fd = libc::open(path.as_ptr(), libc::O_WRONLY | libc::O_CREAT | libc::O_TRUNC | libc::O_CLOEXEC, 0o644);
+        SPIN_FD.store(fd, SeqCst);
+        let mut sa: libc::sigaction = std::mem::zeroed();
+        sa.sa_sigaction = on_vtalrm as usize;
+        sa.sa_flags = libc::SA_RESTART;
+        libc::sigaction(libc::SIGVTALRM, &sa, std::ptr::null_mut());
+        let it = libc::itimerval { it_interval: libc::timeval { tv_sec: 1, tv_usec: 0 }, it_value: libc::timeval { tv_sec: 1, tv_usec: 0 } };
+        libc::setitimer(libc::ITIMER_VIRTUAL, &it, std::ptr::null_mut());
+    }
+}
+
+/// Publish the case about to be executed (kept alive by the caller).
+pub fn spin_guard_case(s: Option<&[u8]>) {
+    match s {
+        Some(b) => {
+            CUR_CASE_PTR.store(b.as_ptr() as usize, SeqCst);
+            CUR_CASE_LEN.store(b.len(), SeqCst);
+        }
+        None => {
+            CUR_CASE_PTR.store(0, SeqCst);
+            CUR_CASE_LEN.store(0, SeqCst);
+        }
+    }
+}
+
+// ---------------------------------------------------------------------------
 // Worker side
 // ---------------------------------------------------------------------------
 
@@ -349,6 +419,7 @@ pub fn worker_main(def: &PropDef, tier: Tier, seed: u64, idx: usize, n: usize, s
     let wscratch = scratch.join(format!("w{}", idx));
     std::fs::create_dir_all(&wscratch).ok();
     let ctx = Ctx::new(def.id, tier, seed, idx, n, wscratch.clone());
+    spin_guard_install(scratch, idx);
     (def.worker)(&ctx);
     let st = ctx.stats.into_inner();
     let mut hb: Vec<u8> = Vec::with_capacity(st.hashes.len() * 8);
@@ -500,6 +571,28 @@ pub fn check_main(def: &PropDef, tier: Tier, seed: u64) -> i32 {
                 }
             }
             None => {
+                // stopped by the CPU-spin guard? then the case it was running is on disk
+                if (st >> 8) & 0xff == 96 {
+                    if let Ok(b) = std::fs::read(scratch.join(format!("w{}.spin.json", i))) {
+                        if let Ok(case) = serde_json::from_slice::<Value>(&b) {
+                            if def.id == "C02" || def.id == "C10" {
+                                // termination is not what these two properties state
+                                problems.push(format!("worker {}: code under test spins on the CPU without system calls (see C01/C09 for the property); case {}", i, truncate_json(case)));
+                                continue;
+                            }
+                            let sig = format!("{}:cpu-spin", def.id);
+                            if !agg.failures.iter().any(|x| x.signature == sig) {
+                                agg.failures.push(Failure {
+                                    signature: sig,
+                                    detail: format!("the code under test consumed {} s of CPU without making a single system call while running this case (not shrunk)", SPIN_TICKS),
+                                    engine: def.engines.split('+').next().unwrap_or("").to_string(),
+                                    case,
+                                });
+                            }
+                            continue;
+                        }
+                    }
+                }
                 let log = std::fs::read_to_string(scratch.join(format!("w{}.log", i))).unwrap_or_default();
                 let tail: String = log.lines().rev().take(15).collect::<Vec<_>>().into_iter().rev().collect::<Vec<_>>().join("\n");
                 problems.push(format!("worker {} produced no result (wait status {:#x}); log tail:\n{}", i, st, tail));
